@@ -202,7 +202,7 @@ func checkPair(a, b string) (string, string) {
 }
 
 func TestC33(t *testing.T) {
-	r := eng.Start("C33", "exploration", 100*time.Second, 15*time.Minute)
+	r := eng.Start("C33", "exploration", 300*time.Second, 15*time.Minute)
 	r.Assume("Debian reference = Go transcription of policy manual 5.6.12, validated in this run against dpkg --compare-versions on all pairs of Debian-valid strings up to the calibration length",
 		"alphabet {0,1,9,a,Z,.,+,~,-,:} covers: digit classes (zero/non-zero), lower/upper letters, two 'other' characters, tilde, revision separator, epoch separator")
 
@@ -240,7 +240,16 @@ func TestC33(t *testing.T) {
 	var calibBad int64
 	var firstBad atomic.Value
 	eng.ParallelFor(len(valid), func(i int) {
-		for _, b := range valid {
+		for j, b := range valid {
+			// the reference is antisymmetric by construction of the check below (in-process, all ordered pairs),
+			// so dpkg — one process per question — is only asked about the unordered pairs
+			if ra, rb := refCompare(valid[i], b), refCompare(b, valid[i]); ra != -rb {
+				atomic.AddInt64(&calibBad, 1)
+				firstBad.Store(fmt.Sprintf("reference not antisymmetric on %q vs %q: %d / %d", valid[i], b, ra, rb))
+			}
+			if j < i {
+				continue
+			}
 			d, err := dpkgCompare(valid[i], b)
 			if err != nil {
 				eng.HarnessError("dpkg: %v", err)
@@ -251,7 +260,7 @@ func TestC33(t *testing.T) {
 			}
 		}
 	})
-	r.Info("reference_calibration_pairs_vs_dpkg", len(valid)*len(valid))
+	r.Info("reference_calibration_pairs_vs_dpkg", len(valid)*(len(valid)+1)/2)
 	if calibBad > 0 {
 		eng.HarnessError("reference disagrees with dpkg on %d pairs, e.g. %v", calibBad, firstBad.Load())
 	}
@@ -262,6 +271,10 @@ func TestC33(t *testing.T) {
 	eng.ParallelFor(len(strs), func(i int) {
 		a := strs[i]
 		var ev, nt, dp int64
+		if r.TimeUp() {
+			r.Cap("time", "pairs: stopped before all first arguments were taken")
+			return
+		}
 		for _, b := range strs {
 			ev++
 			k, m := checkPair(a, b)
@@ -282,9 +295,6 @@ func TestC33(t *testing.T) {
 		atomic.AddInt64(&evals, ev)
 		atomic.AddInt64(&nontrivial, nt)
 		atomic.AddInt64(&debPairs, dp)
-		if r.TimeUp() {
-			r.Cap("time", "pairs")
-		}
 	})
 	r.Add("pair_evaluations", evals)
 	r.Add("debian_domain_pairs", debPairs)
